@@ -44,7 +44,7 @@ fn parse_args() -> Args {
                 opt.insert(k.to_string(), v.to_string());
             } else {
                 match k {
-                    "reverse" | "no-minimise" | "text" | "tokens" => {
+                    "reverse" | "no-minimise" | "text" | "tokens" | "coarse" => {
                         opt.insert(k.to_string(), "1".to_string());
                     }
                     _ => {
@@ -283,6 +283,8 @@ fn cmd_sim(a: &Args) {
     let mut total = Stats::default();
     let mut nviol = 0u64;
     let mut harness_errors = 0u64;
+    let coarse = a.get("coarse").is_some();
+    let mut inconclusive_runs = 0u64;
     let t0 = Instant::now();
     let mut runs_done = 0u64;
     let mut samples_written = 0;
@@ -293,10 +295,22 @@ fn cmd_sim(a: &Args) {
             }
         }
         let seed = run_seed(base_seed, run);
-        let sc = gen::generate(seed, &g);
+        let mut sc = gen::generate(seed, &g);
+        if coarse {
+            // this tree makes concurrent calls wait for each other: never park a client
+            // inside lex_program, switch at op boundaries only
+            sc.strategy = sim::Strategy::RunToCompletion;
+        }
         let r = run_scenario(&sc);
         runs_done += 1;
         total.add(&r.stats);
+        if let Some(why) = &r.inconclusive {
+            // threads of this run are blocked for good: stop this worker, report no verdict
+            inconclusive_runs += 1;
+            let _ = writeln!(out, "inconclusive\t{run}\t{why}");
+            println!("sim-inconclusive build={build} run={run}: {why}");
+            break;
+        }
         if let Some(e) = &r.harness_error {
             harness_errors += 1;
             let _ = writeln!(out, "harness_error\t{run}\t{e}");
@@ -384,6 +398,7 @@ fn cmd_sim(a: &Args) {
     s.set("wall_s", Json::Num(wall));
     s.set("violations", Json::u(nviol));
     s.set("harness_errors", Json::u(harness_errors));
+    s.set("inconclusive_runs", Json::u(inconclusive_runs));
     s.set("junk_blocks_filled", Json::u(alloc::FILLED_BLOCKS.load(std::sync::atomic::Ordering::Relaxed)));
     let _ = writeln!(out, "stats\t{}", s.to_string_compact());
     let _ = out.flush();
